@@ -1195,7 +1195,8 @@ def scan_to_zero(ctx):
             for (bi, si, k, node) in f.whole_defs(v):
                 if bi in body and k == 'assign':
                     e = prov.rvalue(node['rv'], 0, '%d:%d' % (bi, si))
-                    if any(x[0] == 'bin' and x[1].startswith('Sub') for x in expr_walk(e)):
+                    if any((x[0] == 'bin' and x[1].startswith('Sub')) or
+                           (x[0] == 'call' and x[1].split('::')[-1] in ('checked_sub', 'saturating_sub', 'wrapping_sub')) for x in expr_walk(e)):
                         down = True
             if not down:
                 continue
@@ -1704,3 +1705,92 @@ def trailing_skip(ctx):
     else:
         ctx.violation(key, f.loc(mh), 'the backward member scan starts at the raw end of the file and its first magic/trailer mismatch is an error: '
                       'a file with trailing bytes after the last member (valid LZIP, accepted by LZIPReader) makes LZIPReaderMT::new fail')
+
+
+
+# --------------------------------------------------------------------------- SCAN-PROGRESS
+
+@rule('SCAN-PROGRESS', ['C06', 'C09'], floor=2)
+def scan_progress(ctx):
+    """The backward scans of LZIPReaderMT (member table, end of the last member) terminate on every input: in each
+    loop whose header compares a position with a constant (`while pos > 0`, `while end >= MIN`), every path from the
+    header back to the header passes an assignment `pos = pos - x` whose x is proven >= 1 (interval analysis with the
+    guards on the path: `member_size == 0` is an error). A step that may be zero repeats the same trailer forever,
+    pushing a member per round: no return and unbounded memory from a file of a few dozen bytes."""
+    from lzlint.intervals import Intervals
+    F = ctx.facts
+    I = Intervals(F)
+    n = 0
+    for f in F.fns:
+        if not (f.self_adt and last_seg(f.self_adt) == 'LZIPReaderMT' and f.kind != 'closure'):
+            continue
+        prov = None
+        for h, body in f.loops().items():
+            t = f.blocks[h]['term']
+            if t['k'] != 'switch':
+                continue
+            prov = prov or Prov(f)
+            cond = prov.operand(t['discr'], 0, '%d:T' % h)
+            nc = norm_cmp(cond, True) if cond[0] in ('bin', 'un') else None
+            if not nc:
+                continue
+            v = None
+            for a, b in ((nc[1], nc[2]), (nc[2], nc[1])):
+                if a[0] == 'const' and isinstance(a[2], int) and b[0] == 'local':
+                    v = b[1]
+            if v is None or f.local_ty(v) not in ('u64', 'usize'):
+                continue
+            n += 1
+            key = '%s:scan-of-%s-advances' % (f.key, f.local_name(v))
+            dec_blocks = set()
+            weak = None
+            for (bi, si, k, node) in f.whole_defs(v):
+                if bi not in body or k != 'assign':
+                    continue
+                e = prov.rvalue(node['rv'], 0, '%d:%d' % (bi, si))
+                amt = None
+                x = e
+                while x[0] in ('cast',):
+                    x = x[-1]
+                if x[0] == 'field' and isinstance(x[1], tuple) and x[1][0] == 'bin' and x[1][1].startswith('Sub') and str(x[2]) == '0':
+                    x = ('bin', 'Sub', x[1][2], x[1][3])
+                if x[0] == 'bin' and x[1] == 'Sub' and x[2][0] == 'local' and x[2][1] == v:
+                    amt = x[3]
+                if amt is None:
+                    # payload of checked_sub(pos, x)
+                    for y in expr_walk(e):
+                        if y[0] == 'call' and y[1].split('::')[-1] in ('checked_sub', 'saturating_sub') and len(y[2]) == 2 and \
+                                y[2][0][0] == 'local' and y[2][0][1] == v:
+                            amt = y[2][1]
+                if amt is None:
+                    weak = (bi, 'assigned %s, not of the form pos - x' % expr_str(e)[:60])
+                    continue
+                iv = I.eval(f, bi, amt, 0, None, frozenset())
+                if iv.lo >= 1:
+                    dec_blocks.add(bi)
+                else:
+                    weak = (bi, 'step %s has range %r: it may be zero' % (expr_str(amt)[:60], iv))
+            # every cycle through the header passes a decrement
+            inside = [s_ for s_ in f.succs(h) if s_ in body]
+            free = set()
+            stack = list(inside)
+            while stack:
+                b = stack.pop()
+                if b in free or b in dec_blocks or b not in body:
+                    continue
+                free.add(b)
+                for s_ in f.succs(b):
+                    if s_ == h:
+                        free.add(('back', b))
+                    else:
+                        stack.append(s_)
+            backs = [x for x in free if isinstance(x, tuple)]
+            if backs:
+                where = weak[0] if weak else backs[0][1]
+                ctx.violation(key, f.loc(where), 'a round of the scan loop can return to its header without moving %s down by at least one%s: '
+                              'the loop repeats the same position forever (LZIPReaderMT::new never returns and keeps allocating)'
+                              % (f.local_name(v), (' (' + weak[1] + ')') if weak else ''))
+            else:
+                ctx.ok(key, f.loc(h), 'every round passes one of %d assignment(s) %s = %s - x with x >= 1' % (len(dec_blocks), f.local_name(v), f.local_name(v)))
+    if not n:
+        ctx.anchor_missing('position-bounded scan loops in LZIPReaderMT')
